@@ -28,7 +28,7 @@ import (
 	"verif/harness/internal/rng"
 )
 
-const modName = "example.com/cm"
+const baseModName = "example.com/cm"
 
 func goEnv() []string {
 	return append(os.Environ(), "GOFLAGS=-mod=mod", "GOPROXY=off", "GOSUMDB=off", "GOTOOLCHAIN=local")
@@ -105,6 +105,11 @@ func main() {
 		if err != nil {
 			panic(err)
 		}
+		// the module path: plain, or with a major-version suffix (its root package then has an import path ending in /v2)
+		modName := baseModName
+		if r.Intn(4) == 0 {
+			modName = baseModName + "/v2"
+		}
 		os.WriteFile(filepath.Join(root, "go.mod"), []byte(fmt.Sprintf(
 			"module %s\n\ngo 1.22\n\nrequire github.com/goose-lang/goose v0.0.0\n\nreplace github.com/goose-lang/goose => %s\n", modName, *repo)), 0o644)
 		sum, _ := os.ReadFile(filepath.Join(*repo, "go.sum"))
@@ -119,6 +124,10 @@ func main() {
 		}
 		if !ignore && r.Intn(4) == 0 {
 			present = append(present, "broken") // a load error is not a conversion error: only without -ignore-errors
+		}
+		rootPkg := r.Intn(3) == 0
+		if rootPkg { // a package in the module's root directory
+			os.WriteFile(filepath.Join(root, "r.go"), []byte("package cm\n\nfunc Root() uint64 {\n\treturn 4\n}\n"), 0o644)
 		}
 		for _, p := range present {
 			os.MkdirAll(filepath.Join(root, p), 0o755)
@@ -172,6 +181,9 @@ func main() {
 		default:
 			cwd, dirArgs = root, []string{"-dir", ldir}
 		}
+		if rootPkg && ldir == root && r.Intn(2) == 0 {
+			patterns = [][]string{{"."}, {".", "./good1"}, {"./..."}}[r.Intn(3)]
+		}
 		extra := []string{}
 		if r.Intn(3) == 0 {
 			extra = append(extra, "-typecheck")
@@ -186,7 +198,7 @@ func main() {
 		lout, _ := lc.Output()
 		var matched []string
 		for _, l := range strings.Split(strings.TrimSpace(string(lout)), "\n") {
-			if strings.HasPrefix(l, modName+"/") {
+			if l == modName || strings.HasPrefix(l, modName+"/") {
 				matched = append(matched, l)
 			}
 		}
@@ -195,7 +207,10 @@ func main() {
 		// reference result of every matched package, translated alone into its own directory
 		refContents := map[string]string{}
 		for _, m := range matched {
-			rel := strings.TrimPrefix(m, modName+"/")
+			rel := strings.TrimPrefix(strings.TrimPrefix(m, modName), "/")
+			if rel == "" {
+				rel = "."
+			}
 			ref := filepath.Join(root, "ref-"+strings.ReplaceAll(rel, "/", "_"))
 			args := append([]string{"-ignore-errors", "-out", ref, "-dir", root}, extra...)
 			code, _ := runGoose(*goose, root, append(args, "./"+rel)...)
